@@ -171,6 +171,13 @@ let firstn_tr n l =
 
 let bigs b = if b then "1" else "0"
 
+(* verdict of one ReadMessage without the reader position *)
+let verdict (r : WireFrame.frame_res) : string =
+  match r with
+  | WireFrame.FErr (e, _) -> err_name e
+  | WireFrame.FOk (WireMsg.MOpaque k, _, _) -> "OK opaque:" ^ cmd_string k
+  | WireFrame.FOk (m, _, _) -> "OK " ^ summarize m
+
 (* ---------- the model's observable ---------- *)
 let model (input : string) : string =
   match split_on ' ' input with
@@ -231,6 +238,12 @@ let model (input : string) : string =
           | WireBase.Ok b -> if b = firstn_tr pos stream then "same" else show_bytes b in
         Printf.sprintf "OK %s pos=%d re=%s" (summarize m) pos re in
     body ^ " big=" ^ bigs big
+  | ["S"; pver; ebs; net; hx] ->
+    let pver = n_of_string pver and ebs = n_of_string ebs and net = n_of_string net in
+    let stream = bytes_of_hex (String.concat "" (split_on ';' hx)) in
+    let total = llen stream in
+    String.concat ";" (Stdlib.List.map (fun r -> Printf.sprintf "%s@%d" (verdict r) (total - llen (WireFrame.frame_rest r)))
+                         (WireFrame.read_stream (nat_of_int 16) pver net ebs stream))
   | _ -> "BAD-INPUT"
 
 (* ---------- the spec oracle on the implementation's observable ---------- *)
@@ -260,11 +273,18 @@ let spec (input : string) (obs : string) : string =
       let framed = input.[0] = 'F' || input.[0] = 'C' in
       let pver = n_of_string pver and ebs = n_of_string ebs in
       let mmp = WireMsg.max_message_payload ebs in
-      let m = parse_msg ms in
+      let m0 = parse_msg ms in
+      (* an IPv4 address may be held in Go's 4-byte form: the message it denotes is the one with the
+         16-byte mapped form (WireSpec.norm_msg); both forms must give the same bytes *)
+      let m = WireSpec.norm_msg m0 in
+      let ms = if m = m0 then ms else summarize m in
       let kind = cmd_string (WireMsg.kind_of m) in
       if not (WireMsg.wf_msg pver mmp m) then "OK"
       else (match split_on '|' obs with
           | [e; d] ->
+            if not framed && not (m = m0) && not (starts_with "E:" e) && e <> show_bytes (WireMsg.enc_payload pver m) then
+              "FAIL ip-form-bytes-differ-" ^ kind ^ " the 4-byte and the 16-byte form of an IPv4 address encode differently"
+            else
             if starts_with "E:" e then
               (* WriteMessage may refuse a well-formed message only because the configured global maximum is
                  below what the type allows (C14_frame_roundtrip_total); never because of the type's limit *)
@@ -300,6 +320,30 @@ let spec (input : string) (obs : string) : string =
         "FAIL bad-frame-accepted-" ^ cmd ^ " wrong magic / unknown command / oversize length / bad checksum was not rejected"
       else if llen stream < 24 && not (starts_with "E:" obs) then "FAIL short-header-accepted"
       else "OK"
+    | ["S"; pver; ebs; net; hx] ->
+      (* every fully framed frame (header, length <= global maximum, that many payload bytes) must get the
+         verdict it gets alone and leave the reader exactly behind it, whatever that verdict is; a stream
+         that consists of such frames only produces nothing else *)
+      let pver = n_of_string pver and ebs = n_of_string ebs and net = n_of_string net in
+      let stream = bytes_of_hex (String.concat "" (split_on ';' hx)) in
+      let frames = WireSpec.split_frames (nat_of_int 16) ebs stream in
+      let res = Stdlib.List.filter (fun w -> w <> "") (split_on ';' obs) in
+      let rec go i pos frames res =
+        match frames, res with
+        | [], [] -> "OK"
+        | [], _ :: _ ->
+          if pos = llen stream && i < 16 then
+            Printf.sprintf "FAIL stream-out-of-step %d frames on the stream but call %d produced another result" i (i + 1)
+          else "OK"
+        | _ :: _, [] ->
+          if i >= 16 then "OK" else Printf.sprintf "FAIL stream-out-of-step frame %d was never read" (i + 1)
+        | f :: fs, r :: rs ->
+          let pos' = pos + llen f in
+          let want = Printf.sprintf "%s@%d" (verdict (WireFrame.read_message pver net ebs f)) pos' in
+          if r = want then go (i + 1) pos' fs rs
+          else Printf.sprintf "FAIL stream-out-of-step call %d on the stream: want %s got %s" (i + 1)
+              (if String.length want > 120 then String.sub want 0 120 else want) (if String.length r > 120 then String.sub r 0 120 else r) in
+      go 0 0 frames res
     | _ -> "FAIL malformed-input"
 
 (* main: the cases are independent, so they are spread over worker processes (each a re-exec of this
